@@ -123,17 +123,44 @@ theorem zipWith3_append (f : ℝ → ℝ → ℝ → ℝ) (a1 b1 c1 a2 b2 c2 : L
       simp only [List.cons_append, Vec.zipWith3]
       rw [ih ys zs (by simpa using hab) (by simpa using hbc)]
 
+theorem zipWith3_map_third (f : ℝ → ℝ → ℝ → ℝ) (g : ℝ → ℝ) (a b c : List ℝ) :
+    Vec.zipWith3 f a b (c.map g) = Vec.zipWith3 (fun x y z => f x y (g z)) a b c := by
+  induction a generalizing b c with
+  | nil => cases b <;> cases c <;> rfl
+  | cons x xs ih =>
+    cases b with
+    | nil => cases c <;> rfl
+    | cons y ys =>
+      cases c with
+      | nil => rfl
+      | cons z zs => simp only [List.map_cons, Vec.zipWith3, ih]
+
+theorem zipWith3_congr (f g : ℝ → ℝ → ℝ → ℝ) (h : ∀ x y z, f x y z = g x y z) (a b c : List ℝ) :
+    Vec.zipWith3 f a b c = Vec.zipWith3 g a b c := by
+  have : f = g := by funext x y z; exact h x y z
+  rw [this]
+
+/-- the share of one piece: its length over the segment length, or an equal share of a segment without length -/
+noncomputable def share (dseg s c : ℝ) : ℝ := if dseg < 0 ∨ 0 < dseg then s / dseg else 1 / c
+
+/-- the share statement of the source, whatever way it is written (`np.divide(…, out=1.0 / counts, where=…)` as an expression, or
+    the equal-share array built first and `np.divide` storing into it), is the pointwise `share` of the three flat arrays -/
+theorem grid_fractions_eq (subs segrep cntrep : List ℝ) :
+    Kern.grid_fractions subs segrep cntrep = Vec.zipWith3 share segrep subs cntrep := by
+  simp only [Kern.grid_fractions, zipWith3_map_third]
+  apply zipWith3_congr
+  intro x y z
+  simp only [share, lit_real]
+  norm_num
+
 /-- the share statement of the source for ONE segment (the arrays `np.repeat` builds hold the segment length and the piece count
     once per piece) = the model's (repaired) `fractions` -/
 theorem fractions_one (dseg : ℝ) (count : Nat) (subs : List ℝ) :
     Kern.grid_fractions subs (List.replicate subs.length dseg) (List.replicate subs.length (ofNat count : ℝ))
       = fractions Rules.repaired dseg count subs := by
-  simp only [Kern.grid_fractions]
-  rw [zipWith3_replicate]
-  simp only [fractions, nonzero, Rules.repaired, if_true, lit_real, zero_real, one_real, ofNat, Bool.or_eq_true, decide_eq_true_eq]
-  apply List.map_congr_left
-  intro s _
-  norm_num
+  rw [grid_fractions_eq, zipWith3_replicate]
+  simp only [share, fractions, nonzero, Rules.repaired, if_true, lit_real, zero_real, one_real, ofNat, Bool.or_eq_true, decide_eq_true_eq]
+  all_goals (apply List.map_congr_left; intro s _; norm_num)
 
 /-- one segment as the flat arrays see it: its length, its number of pieces, the lengths of its pieces -/
 structure SegData where
@@ -148,12 +175,13 @@ theorem fractions_flat (segs : List SegData) :
     Kern.grid_fractions (segs.flatMap (·.subs)) (segs.flatMap (fun s => List.replicate s.subs.length s.dseg))
         (segs.flatMap (fun s => List.replicate s.subs.length (ofNat s.count : ℝ)))
       = segs.flatMap (fun s => fractions Rules.repaired s.dseg s.count s.subs) := by
+  rw [grid_fractions_eq]
   induction segs with
   | nil => rfl
   | cons s ss ih =>
     simp only [List.flatMap_cons]
     have h := fractions_one s.dseg s.count s.subs
-    simp only [Kern.grid_fractions] at h ih ⊢
+    rw [grid_fractions_eq] at h
     rw [zipWith3_append _ _ _ _ _ _ _ (by simp) (by simp), h, ih]
 
 /-- the pieces of an integrated value: the repeated value times the share, element by element (the model's `gridPlain.integ`) -/
